@@ -10,21 +10,26 @@ lp = subprocess.run(["lake", "env", "printenv", "LEAN_PATH"], cwd=LEAN, capture_
 old = json.load(open("/verif/theorems.json")) if os.path.exists("/verif/theorems.json") else {}
 reg = {}
 for p in props:
-    src = "import ZkProofs.Props.%s\nimport ListThms\n#list_thms ZkProofs.Props.%s\n" % (p, p)
-    f = WORK + "/lt_%s.lean" % p
-    open(f, "w").write(src)
-    out = subprocess.run(["lean", f], env=dict(os.environ, LEAN_PATH=WORK + ":" + lp), capture_output=True, text=True).stdout
+    mods = sorted(f[:-5] for f in os.listdir(LEAN + "/ZkProofs/Props") if re.fullmatch(p + r"\w*\.lean", f))
     thms = []
-    for l in out.split("\n"):
-        m = re.match(r".*?: (Zk\.%s\.[^\t]+)\t(.*)$" % p, l) or re.match(r"^(Zk\.%s\.[^\t]+)\t(.*)$" % p, l)
-        if m:
-            name, doc = m.group(1), m.group(2).strip()
-            if ".match_" in name or ".proof_" in name or name.endswith(".eq_1"):
-                continue
-            says = re.split(r"(?<=[.;])\s", doc)[0][:300] if doc else name.split(".")[-1].replace("_", " ")
-            thms.append({"name": name, "says": says})
-    reg[p] = {"module": "ZkProofs.Props." + p,
-              "assumptions": old.get(p, {}).get("assumptions", ["Lawful env pair for the concrete BLS12-381 environment (L0)"]),
+    for mod in mods:
+        src = "import ZkProofs.Props.%s\nimport ListThms\n#list_thms ZkProofs.Props.%s\n" % (mod, mod)
+        f = WORK + "/lt_%s.lean" % mod
+        open(f, "w").write(src)
+        out = subprocess.run(["lean", f], env=dict(os.environ, LEAN_PATH=WORK + ":" + lp), capture_output=True, text=True).stdout
+        for l in out.split("\n"):
+            m = re.match(r".*?: (Zk\.%s\.[^\t]+)\t(.*)$" % mod, l) or re.match(r"^(Zk\.%s\.[^\t]+)\t(.*)$" % mod, l)
+            if m:
+                name, doc = m.group(1), m.group(2).strip()
+                if ".match_" in name or ".proof_" in name or name.endswith(".eq_1") or "._" in name:
+                    continue
+                says = re.split(r"(?<=[.;])\s", doc)[0][:300] if doc else name.split(".")[-1].replace("_", " ")
+                thms.append({"name": name, "says": says})
+    reg[p] = {"module": "ZkProofs.Props." + p, "modules": ["ZkProofs.Props." + m for m in mods],
+              "assumptions": (["rug/GMP integer semantics as modelled in ZkModel/L0/IntArith.lean (powMod/invMod/isqrt specs are PROVEN: Zk.Cl.arithOK)",
+                               "the model's Miller-Rabin stands in for GMP is_probably_prime/next_prime (oracle hypothesis explicit in the theorems that need primality)",
+                               "SHA-256 as modelled in L0 (KAT-pinned)"] if p > "C12" else
+                              ["Lawful env pair for the concrete BLS12-381 environment (L0)"]),
               "theorems": thms}
-    print(p, len(thms), "theorems")
+    print(p, len(thms), "theorems", mods)
 json.dump(reg, open("/verif/theorems.json", "w"), indent=1)
